@@ -114,12 +114,14 @@ def run_order_gfa(
         # Initialize files
         # f_gfa = open(outdir+'/'+gfa_filename.split("/")[-1][:-4]+'-'+chromosome+'.gfa', 'w')
 
-        scaffold_nodes, inside_nodes, node_order, bo, bubble_count = decompose_and_order(
+        scaffold_nodes, inside_nodes, node_order, next_bo, bubble_count = decompose_and_order(
             graph, component_nodes, chromosome, bo
         )
 
         # skip a chromosome if something went wrong
         if scaffold_nodes:
+            # a skipped chromosome must not disturb the running BO counter
+            bo = next_bo
             f_gfa = (
                 outdir
                 + os.sep
@@ -238,7 +240,12 @@ def decompose_and_order(graph, component, component_name, bo_start=0):
         inside_nodes.update(bc_inside_nodes)
 
         if len(bc_inside_nodes) == 0:
-            assert len(bc_end_nodes) == 2
+            if len(bc_end_nodes) != 2:
+                # e.g. three or more articulation points on one cycle: not a chain of bubbles
+                logger.warning(
+                    f"Error: In Chromosome {component_name}, a biconnected component consists only of articulation points. Skipping this chromosome"
+                )
+                return None, None, None, None, None
             node1, node2 = tuple(bc_end_nodes)
             scaffold_graph.add_edge(node1, "+", node2, "+", 0)
 
